@@ -358,7 +358,7 @@ _LINE_ENDS = {"LF": ["\n"], "CR": ["\r"], "CRLF": ["\r\n"], "Any": ["\n", "\r\n"
 @st.composite
 def generated_cases(draw):
     spec = draw(gen_tables.cid_specs(kinds=("delimited", "delimited-de", "fixed"), max_fields=3, max_header=1,
-                                     checks=draw(st.sampled_from(["always", "always", "some"]))))
+                                     checks=draw(st.sampled_from(["always", "always", "some"])), max_unique=2))
     tables = [draw(gen_tables.tables(spec, max_rows=6)) for _ in range(draw(st.integers(1, 3)))]
     ends = _LINE_ENDS[spec["fmt"].get("line_delimiter")]
     ops = []
